@@ -14,7 +14,8 @@
 //!     (a buffer is a DATA frame with payload chunks a.b.., or hN = HEADERS frame, tT:a.b = stream type T then a
 //!      DATA frame, yT = stream type T alone; ps = raw bytes sent afterwards with SendStreamUnframed::poll_send)
 //!  qr role=c|s kind=bi|uni|bip skip=N win=N cwin=N chunks=a,b,.. seed=N ids=MASK stop=none|C@idle|C@pend|C@pend2
-//!     fault=fin|reset:C@N|close:C@N|timeout@N|lclose:C
+//!     fault=fin|reset:C@N|close:C@N|timeout@N|lclose:C re=K restop=C|-
+//!     (re = after a failed read poll_data K more times, ask recv_id, optionally stop_sending(restop) and poll once more)
 //!  qa role=c|s op=accept_recv|accept_bidi|open_bidi|open_send via=conn|opener|clone fault=close:C|lclose:C|timeout
 //!  qd role=c|s dir=send|recv sid=S len=N seed=N fault=none|close:C|lclose:C|timeout|toolarge|disabled
 use std::collections::HashMap;
@@ -1216,11 +1217,35 @@ async fn run_qr(certs: &Certs, c: &Case) -> String {
         }
     }
     q(&r, 5, &mut ids);
+    // after a failed read the stream stays usable: poll it again, ask for its id, stop it, poll once more
+    let re_n = c.n("re", 0);
+    let mut re_out: Vec<String> = Vec::new();
+    let mut rs_out = String::from("-");
+    let failed = ended.as_deref().map(|e| e.starts_with("err:")).unwrap_or(false);
+    if failed && re_n > 0 {
+        let poll_once = |x: Result<Result<Option<Bytes>, StreamErrorIncoming>, tokio::time::error::Elapsed>| match x {
+            Err(_) => "pending".to_string(),
+            Ok(Ok(Some(_))) => "data".to_string(),
+            Ok(Ok(None)) => "fin".to_string(),
+            Ok(Err(e)) => format!("err:{}", stream_class(&e)),
+        };
+        for _ in 0..re_n {
+            let x = tokio::time::timeout(Duration::from_secs(5), poll_fn(|cx| r.poll_data(cx))).await;
+            re_out.push(poll_once(x));
+        }
+        ids.push(r.recv_id().to_string());
+        if let Some(code) = c.opt_n("restop") {
+            r.stop_sending(code);
+            ids.push(r.recv_id().to_string());
+            let x = tokio::time::timeout(Duration::from_secs(5), poll_fn(|cx| r.poll_data(cx))).await;
+            rs_out = poll_once(x);
+        }
+    }
     let xid = r.send_id().map(|x| x.to_string()).unwrap_or_else(|| "-".into());
     let _ = done_tx.send(());
     let (pid, pstop, pclose) = peer.await.expect("peer task");
     let out = format!(
-        "ok end={} {} p1={} p2={} ids={} pid={} xid={} pstop={} pclose={}",
+        "ok end={} {} p1={} p2={} ids={} pid={} xid={} pstop={} pclose={} re={} rs={}",
         ended.unwrap(),
         chk.show(),
         p1s,
@@ -1229,7 +1254,9 @@ async fn run_qr(certs: &Certs, c: &Case) -> String {
         pid,
         xid,
         pstop,
-        pclose
+        pclose,
+        if re_out.is_empty() { "-".to_string() } else { re_out.join("/") },
+        rs_out
     );
     pair.a.close(VarInt::from_u32(0), b"done");
     pair.p.close(VarInt::from_u32(0), b"done");
